@@ -17,6 +17,7 @@ RULE = ('Hypothesis maskbits configurations: 1-2 files per case (the second re-u
         'groups and labels, flagexist in all four flag combinations.  Oracle: set algebra on the configuration.  '
         'Non-trivial = some group has a bit >= 32 and some query mixes >=2 labels or a value with undefined bits.')
 RULE += '  Also: aliases of aliases, labels passed as tuple / ndarray, files without alias typedef, signed 64-bit values.'
+RULE += ' Round 5: column order of the maskbits / maskalias typedefs varied.'
 ASSUMPTIONS = ['group and label names in the file are upper-case identifiers (as in the official file; queries are upper-cased, file contents are not)',
                'one label per bit within a group; queried label lists are distinct',
                'the cache is (re)configured the way the package tests do it: sdss.maskbits = set_maskbits(maskbits_file=...)']
